@@ -85,6 +85,21 @@ class _Table(PyStub):
     def keys(self):
         return list(self.columns)
 
+    @staticmethod
+    def _missing(row, j):
+        return j >= len(row) or str(row[j]).strip() in ('', 'nan', '-nan', 'NaN', '-NaN', 'NA', 'N/A', 'NULL', 'null', 'None', 'n/a', '<NA>', '#N/A', '#NA', '-1.#IND', '1.#IND', '-1.#QNAN', '1.#QNAN', '#N/A N/A')
+
+    def dropna(self, axis=0, how='any', **kw):
+        """pandas.DataFrame.dropna on the printed tokens: a cell is missing when its row was cut before it or it prints as nan"""
+        from ..symx import Opaque as _Opaque
+        if kw or how not in ('any', 'all') or axis not in (0, 1, 'index', 'columns'):
+            raise _Opaque('DataFrame.dropna(%r, %r, %s) outside the table model' % (axis, how, sorted(kw)))
+        test = any if how == 'any' else all
+        if axis in (1, 'columns'):
+            keep = [j for j in range(len(self.columns)) if not test(self._missing(r, j) for r in self.rows)]
+            return _Table([self.columns[j] for j in keep], [[r[j] for j in keep if j < len(r)] for r in self.rows])
+        return _Table(self.columns, [r for r in self.rows if not test(self._missing(r, j) for j in range(len(self.columns)))])
+
 
 def _mk_read_csv(calls, default_sep=','):
     def read_csv(f, header='infer', nrows=None, sep=None, skip_blank_lines=True, delim_whitespace=False, delimiter=None, **kw):
